@@ -2,6 +2,7 @@
 import z3
 from contracts import c_tetrahedron as T
 from contracts import py_tetrahedron as PT
+from contracts import c_rgrid as RG
 
 
 def build(run):
@@ -14,6 +15,8 @@ def build(run):
     reg = dict(gen)
     reg["sort_omegas"] = so
     run.verify_c(T.weight_contracts() + T.top_contracts() + T.vertex_contracts(run.finding_status("E4") == "known"), registry=reg)
+    cs, reg2 = RG.all_contracts()
+    run.verify_c(cs, registry=reg2)
     # Python implementation: same terms, same ladder
     PT.extract(run)
     PT.equiv_lemmas(run)
